@@ -47,19 +47,35 @@ def rule_a(ctx):
         ctx.ob("write|unconditional", not any(w.conditions(x) for x in order) and not any(w.in_loop(x) for x in order),
                "the write protocol has no conditional or repeated step", order)
 
+        def delta(o, at_site, depth=0):
+            """o as `loaded sequence + k` (wrapping): k, or None."""
+            from ..masks import const_eval
+            if depth > 6 or not isinstance(o, tuple) or not o:
+                return None
+            if o == ("call", ld.b, ld.callee):
+                return 0
+            if o[0] == "call" and o[2].endswith("wrapping_add"):
+                a = Site(w, o[1], TERM)
+                base = w.origins(a.args()[0], a)
+                k = const_eval_set(w.origins(a.args()[1], a))
+                if len(base) != 1 or k is None:
+                    return None
+                d0 = delta(next(iter(base)), a, depth + 1)
+                return None if d0 is None else d0 + k
+            if o[0] == "proj" and o[2] == ("f", "0"):
+                return delta(o[1], at_site, depth + 1)
+            if o[0] == "bin" and o[1].replace("WithOverflow", "").replace("Unchecked", "") == "Add":
+                for x, y in ((o[2], o[3]), (o[3], o[2])):
+                    k = const_eval(y)
+                    if k is not None:
+                        d0 = delta(x, at_site, depth + 1)
+                        return None if d0 is None else d0 + k
+            return None
+
         def inc_of(site):
             o = w.origins(site.args()[1], site)
-            for x in o:
-                if x[0] == "call" and x[2].endswith("wrapping_add"):
-                    a = Site(w, x[1], TERM)
-                    if w.origins(a.args()[0], a) == frozenset([("call", ld.b, ld.callee)]):
-                        return const_eval_set(w.origins(a.args()[1], a))
-                if x[0] == "proj" or x[0] == "bin":
-                    rt, _ = origin_proj_names(x)
-                    if rt[0] == "bin" and rt[1].startswith("Add") and rt[2] == ("call", ld.b, ld.callee):
-                        from ..masks import const_eval
-                        return const_eval(rt[3])
-            return None
+            ds = set(delta(x, site) for x in o)
+            return next(iter(ds)) if len(ds) == 1 else None
         ctx.ob("write|odd-then-even", inc_of(s1) == 1 and inc_of(s2) == 2,
                "the first store publishes seq+1 (odd: write in progress) and the second seq+2 (even), both from the same load", [s1, s2])
         ctx.ob("write|stores-the-value", w.origins(t.args()[1], t) == frozenset([("arg", 2)]), "the tearable store writes the caller's value", [t])
@@ -80,6 +96,20 @@ def rule_a(ctx):
             mc = mask_cmp(c)
             if mc and mc[1] == ("call", l1.b, l1.callee) and mc[2] == 1 and ((mc[0] == "==" and mc[3] == 0) or (mc[0] == "!=" and mc[3] == 1)):
                 par = True
+            elif c.kind == "cmp" and c.data[0] in ("==", "!="):
+                # the same test written with the remainder: seq % 2 == 0 / seq % 2 != 1
+                from ..masks import const_eval
+                for x, y in ((c.data[1], c.data[2]), (c.data[2], c.data[1])):
+                    v = const_eval_set(y)
+                    if v is None or len(x) != 1:
+                        continue
+                    o = next(iter(x))
+                    if isinstance(o, tuple) and o and o[0] == "proj" and o[2] == ("f", "0"):
+                        o = o[1]
+                    if isinstance(o, tuple) and o and o[0] == "bin" and o[1].replace("WithOverflow", "") == "Rem" and \
+                            o[2] == ("call", l1.b, l1.callee) and const_eval(o[3]) == 2:
+                        if (c.data[0] == "==" and v == 0) or (c.data[0] == "!=" and v == 1):
+                            par = True
         ctx.ob("read|even-sequence-required", par, "the value is read only if the first sequence count is even (no write in progress)", [t])
         oks = [x for x in K.ret_assigns(r) if K.result_variant_of_ret(x) == "Ok"]
         good = bool(oks)
